@@ -32,13 +32,13 @@ def mt3(ls, rounds=None):
 def stage(nf, items, tok, combos=None):
     combos = combos or list(itertools.product((2, 1, 3), repeat=nf))
     return [dict([('NF', nf), ('ITEMS', items), ('TOK', tok)] + [('M%d' % i, m) for i, m in enumerate(c)]) for c in combos]
-Q3 = [(2, 1, 1), (1, 2, 1), (1, 1, 1), (2, 3, 1), (1, 3, 1), (3, 2, 1), (2, 2, 1), (1, 2, 3), (3, 1, 2), (2, 1, 3), (1, 1, 2), (2, 2, 2)]
+Q3 = [(2, 1, 1), (1, 2, 1), (1, 1, 1), (2, 3, 1), (1, 3, 1), (3, 2, 1), (2, 2, 1), (1, 2, 3), (3, 1, 2)]
 HARNESSES = [
   dict(name='tokenbuf_seq', unit='ring', harness='h_tokenbuf.c', cbmc=['--unwind', '34', '--object-bits', '12'],
        scenarios_quick=tb(3, (0, 1, 2)) + tb(4, (0,)) + [dict(MODE=0, N=5, STARTK=s, PERM=p) for s in (1, 3) for p in GROW5] +
                        [dict(MODE=0, N=9, STARTK=s, PERM=p) for s in (1, 3) for p in DEEP[:2]],
        scenarios_thorough=tb(4, (0, 1, 2)) + tb(5, (0,)) + tb(6, (1, 2), (1, 3)) + [dict(MODE=0, N=9, STARTK=s, PERM=p) for s in (1, 3) for p in DEEP],
-       timeout=900, mem_gb=10, thorough_override=dict(timeout=3600),
+       timeout=800, mem_gb=10, thorough_override=dict(timeout=3500),
        desc='real input_buffer (try_put_token / try_to_spawn_task_for_next_token / grow / ctor) of one serial filter, N items: the solver chooses '
             'the arrival order (all N! orders) and every completion time; serial_in_order with upstream tokens (MODE 0), first ordered filter '
             '(MODE 1), serial_out_of_order (MODE 2); token counters started at 0 / wrapping 2^64 / 2^32 / 5 / 2^63. One item in the filter at a '
@@ -48,16 +48,16 @@ HARNESSES = [
   dict(name='ring_step', unit='ring', harness='h_ringstep.c', cbmc=['--unwind', '34', '--object-bits', '12'],
        scenarios_quick=[dict(KIND=k, OP=op, SZ=4) for k in (0, 1, 2) for op in (0, 1, 2)] + [dict(KIND=k, OP=1, SZ=8) for k in (0, 1, 2)],
        scenarios_thorough=[dict(KIND=k, OP=op, SZ=sz) for k in (0, 1, 2) for op in (0, 1) for sz in (4, 8)] + [dict(KIND=k, OP=2, SZ=4) for k in (0, 1, 2)],
-       timeout=900, mem_gb=10, thorough_override=dict(timeout=3600),
+       timeout=1200, mem_gb=10, thorough_override=dict(timeout=3600),     # largest timeout => scheduled first (longest single queries)
        desc='ONE operation of the real token ring from an ARBITRARY ring state satisfying the representation invariant (any 64-bit low_token, '
             'any set of parked items, symbolic payloads): try_put_token at any distance < 4*array_size (incl. grow x2 / x4: every parked item '
             're-homed by its token, unchanged, nothing else valid), try_to_spawn_task_for_next_token (exactly the next token released, others '
             'untouched), ctor establishes the invariant. KIND 0 upstream tokens / 1 first ordered filter / 2 serial_out_of_order',
        bounds={'array_size': 'quick 4 (put, done) and 8 (done); thorough 4 and 8 for both', 'low_token/high_token': 'any 64-bit value',
-               'put distance': '< 4*array_size (ring grows to <= 32 slots)', 'induction': 'histories of any length follow by induction on the '
+               'put distance': '< 4*array_size (ring doubles or quadruples, <= 32 slots)', 'induction': 'histories of any length follow by induction on the '
                'invariant (paper argument); sizes > 8 not stepped'}),
   dict(name='tokenbuf_mt2', unit='mt_pd', harness='h_ring_mt.c', defines={'ROUNDS': 3, 'NT': 2}, cbmc=['--unwind', '34', '--object-bits', '12'],
-       scenarios=mt2((LWRAP,)), scenarios_thorough=mt2((LWRAP, '5UL', '4294967294UL'), rounds=4), timeout=900, thorough_override=dict(timeout=3600),
+       scenarios=mt2((LWRAP,)), scenarios_thorough=mt2((LWRAP, '5UL', '4294967294UL'), rounds=4), timeout=1000, thorough_override=dict(timeout=3600),
        desc='real token ring under concurrency (Lazy-CSeq, context switch before every memory op): thread A try_put_token (arriving item) || '
             'thread B try_to_spawn_task_for_next_token (item leaving the filter); pre-parked items per scenario; upstream tokens / ring-assigned '
             'tokens / serial_out_of_order. Token order, one item inside at a time, exactly once, no item lost between park and release '
@@ -65,7 +65,7 @@ HARNESSES = [
        bounds={'threads': 2, 'free_rounds': '3 quick / 4 thorough', 'forced_rounds': 2, 'spin_unroll': 1, 'low_token': 'quick 2^64-1 (wraps); thorough also 5, 2^32-2',
                'grow': 'cut (every token fits into the initial ring); grow is covered by tokenbuf_seq / ring_step'}),
   dict(name='tokenbuf_mt3', unit='mt_ppd', harness='h_ring_mt.c', defines={'ROUNDS': 2, 'NT': 3}, cbmc=['--unwind', '34', '--object-bits', '12'],
-       scenarios=mt3((LWRAP,)), scenarios_thorough=mt3((LWRAP, '5UL'), rounds=3), timeout=900, thorough_override=dict(timeout=3600),
+       scenarios=mt3((LWRAP,)), scenarios_thorough=mt3((LWRAP, '5UL'), rounds=3), timeout=1100, thorough_override=dict(timeout=3600),
        desc='as tokenbuf_mt2 with two arriving items (threads A, C) racing with one completion (B): distinct tokens assigned under the lock, '
             'only the item whose turn it is enters the filter',
        bounds={'threads': 3, 'free_rounds': '2 quick / 3 thorough', 'forced_rounds': 2, 'spin_unroll': 1, 'low_token': '2^64-1; thorough also 5', 'grow': 'cut'}),
@@ -78,7 +78,7 @@ HARNESSES = [
             'max_number_of_live_tokens and idle input_tokens + live <= limit at every task boundary; every item through every filter exactly once '
             'in filter order; all serial_in_order filters see one common order; never two runnable tasks at one serial filter; wait_context '
             'reaches zero exactly once, only with empty bag, after end of input and after every item left the last filter; no task leaked/freed twice',
-       bounds={'filters': 'quick 1-3 (all 3^NF mode combinations); thorough also 4 filters (5 combinations)', 'items': 'quick 2 (3 filters) / 3 (1-2 filters); thorough 3-4 (parallel+parallel with limit 3: 3 items, the 4-item tree exceeds cbmc object limits)',
+       bounds={'filters': 'quick 1-2 (all mode combinations) and 3 (9 of 27 combinations); thorough 1-3 all combinations, 4 filters (5 combinations)', 'items': 'quick 2 (3 filters) / 3 (1-2 filters); thorough 3-4 (parallel+parallel with limit 3: 3 items, the 4-item tree exceeds cbmc object limits)',
                'max_number_of_live_tokens': 'quick 1-2; thorough 1-3', 'granularity': 'tasks are atomic (overlap of task bodies is covered for the ring by tokenbuf_mt*)',
                'filter_may_emit_null / thread-local end_of_input': 'not driven'}),
 ]
